@@ -24,6 +24,11 @@ earlier back-ends) made from the SAME environment object, for every parameter fa
 a freshly parsed environment (read back in the batch phase) needs no second read-back; text that differs is read back
 and compared with the environment as parsed.
 
+Histories of selections ("selecting by query or tags exports exactly the selected parameters"): on ONE live exporter
+object every sequence of 1..2 (thorough: 1..3) earlier select() calls out of 8 forms (no argument, query '*', 'box.*',
+'grp.*', a single path, tags ['sel'], tags ['other'], query + tags), optionally each followed by parse(), then every
+last form, for every back-end; what is exported must be the documented selection of the LAST call alone.
+
 Not demanded (left out of the alphabet, see DESIGN.md "Not demanded"):
   * Fortran signedness: unsigned values above the signed maximum of the width are not exported to Fortran;
   * Rust f128 (documented as f64); C/C++ float128 <-> `long double` (documented mapping, whatever its storage size);
@@ -64,7 +69,13 @@ RULE = ("case = (back-end, option set, parameter) with parameter = (dtype/width,
         "from the same environment object, back-end, option set, parameter): all 22 x 22 ordered (earlier, later) "
         "option-set pairs x every family (thorough: also two earlier exports, 9 x 9 back-ends); expectation = the "
         "environment as parsed; an export whose text equals the fresh export's text (read back in the batch phase) is "
-        "decided by that read-back, any other text is read back itself.")
+        "decided by that read-back, any other text is read back itself.  Histories of selections: case = "
+        "(back-end, earlier select() calls [form, ...] on ONE exporter object, parse() after each earlier select "
+        "yes/no, last select form, selected parameter): 8 forms (select(), query '*', 'box.*', 'grp.*', a path, "
+        "tags ['sel'], tags ['other'], query+tags) x every sequence of 1..2 (thorough 1..3) earlier forms x 8 last "
+        "forms x 9 back-ends; expectation = documented selection of the last call alone; text equal to that of a new "
+        "exporter with the single last select (read back in the same shard) is decided by that read-back, any other "
+        "text is read back itself.")
 ASSUMPTIONS = [
     "gcc/g++ 12, gfortran 12, rustc, bash 5, python json/yaml/tomllib are the reference semantics of the formats",
     "printer programs dispatch on the declared type inside the target language (_Generic, templates, generic "
@@ -78,6 +89,8 @@ ASSUMPTIONS = [
     "parse() calls) is identical to that of a freshly parsed environment with the same parameter list is decided by "
     "the read-back of the latter in the batch phase",
     "earlier exports of a history are made without select() (the exporter then holds the environment's own objects)",
+    "select() called without an argument means no query / no tags (the documented defaults), also when an earlier "
+    "call on the same exporter gave one: the selection exported is that of the last call alone",
 ]
 
 BACKENDS = ["dip", "json", "yaml", "toml", "bash", "c", "cpp", "fortran", "rust"]
@@ -798,8 +811,11 @@ def _parse_env(src):
         return dip.parse()
 
 
-def export_text(backend, opt, env, sel, keys_ranks):
-    """run the real exporter; returns (text, text_of_second_parse_call)"""
+def export_text(backend, opt, env, sel, keys_ranks, presel=None):
+    """run the real exporter; returns (text, text_of_second_parse_call).  sel = None: select() is not called; a dict
+    (also the empty one): select(**sel) is called.  presel = (earlier selections [dict, ...], parse_between): the
+    earlier select() calls made on the SAME exporter object before select(**sel), each followed by a parse() call of
+    that exporter when parse_between is set."""
     cls = _exporter(backend)
     kw = dict(opt.get("parse") or {})
     if backend in ("c", "cpp"):
@@ -810,7 +826,12 @@ def export_text(backend, opt, env, sel, keys_ranks):
         if backend == "cpp" and opt.get("const"):
             kw["const"] = cnames
     with cls(env, **(opt.get("ctor") or {})) as exp:
-        if sel:
+        if presel:
+            for ps in presel[0]:
+                exp.select(**ps)
+                if presel[1]:
+                    exp.parse(**kw)
+        if sel is not None:
             exp.select(**sel)
         t1 = exp.parse(**kw)
         t2 = exp.parse(**kw)
@@ -829,7 +850,7 @@ def _history(env, specs, before):
     return hist
 
 
-def run_batch(backend, opt, specs, sel=None, before=None):
+def run_batch(backend, opt, specs, sel=None, before=None, presel=None):
     """Export + read back one environment (after the exports `before` = [(back-end, option set id), ...] were made from
     the same environment object).  The expectation is read from the environment BEFORE any exporter touched it.
     -> ("ok", {spec id: None | (behaviour, expected, observed, tags)}, info) | ("fail", stage, message)"""
@@ -853,7 +874,8 @@ def run_batch(backend, opt, specs, sel=None, before=None):
                 return ("fail", "env", "node %s missing from the environment" % s["name"])
             exps[s["id"]] = _expected(types[s["name"]])      # snapshot (new lists) of the environment as parsed
         hist = _history(env, specs, before)
-        o = outcome(export_text, backend, opt, env, sel, [(key, mode) for s, key, mode in plan], timeout=60)
+        o = outcome(export_text, backend, opt, env, sel, [(key, mode) for s, key, mode in plan], timeout=60,
+                    presel=presel)
         if o[0] != "ok":
             return ("fail", "export", "%s: %s" % (o[1], o[2]))
         text, text2 = o[1]
@@ -912,7 +934,7 @@ def run_batch(backend, opt, specs, sel=None, before=None):
 
 def _case(backend, opt, specs, sel, target=None):
     c = dict(backend=backend, opt=opt["id"], params=[{k: v for k, v in s.items() if k not in ("family",)} for s in specs])
-    if sel:
+    if sel is not None:
         c["select"] = sel
     if target:
         c["target"] = target
@@ -1311,6 +1333,168 @@ def run_after(backend, fam, window, tier, flat_too, sh):
             check_after(before, backend, opt, specs, sh, fresh=fresh)
 
 
+# ---------------------------------------------------------------------------------------------- histories of selections
+# "Selecting by query or tags exports exactly the selected parameters": an exporter object is a live object, select()
+# may be called on it any number of times (and parse() in between).  A history = earlier select() calls [form, ...] on ONE
+# exporter (optionally each followed by parse()), then select(last form) and the export under test.  What must be
+# exported is the documented selection of the LAST call alone (select_model); an argument omitted in the last call means
+# "no query" / "no tags", whatever an earlier call gave.
+#
+# Reduction (as for histories of exports): the reader's verdict is a function of the exported text.  The export of a
+# NEW exporter with the single call select(last form) is read back in this very shard; a history whose text (both
+# parse() calls) equals it is decided by that read-back.  Any other text is read back itself (once per distinct text of
+# the shard) and compared with select_model(last form).
+SEL_FORMS = [("none", dict()), ("all", dict(query="*")), ("box", dict(query="box.*")), ("grp", dict(query="grp.*")),
+             ("path", dict(query="grp.q5")), ("tag-sel", dict(tags=["sel"])), ("tag-other", dict(tags=["other"])),
+             ("box+tag", dict(query="box.*", tags=["sel"]))]
+
+
+def sel_histories(tier):
+    """earlier select() calls of one exporter: every sequence of 1 and 2 forms (thorough: also 3) x parse() after
+    each earlier select yes/no"""
+    names = [n for n, _ in SEL_FORMS]
+    hs = []
+    for L in ((1, 2, 3) if tier == "thorough" else (1, 2)):
+        for seq in itertools.product(names, repeat=L):
+            for between in (False, True):
+                hs.append((list(seq), between))
+    return hs
+
+
+def _sel_form(name):
+    for n, f in SEL_FORMS:
+        if n == name:
+            return dict(f)
+    raise HarnessError("unknown selection form %r" % (name,))
+
+
+def _sel_texts(backend, opt, specs, sel, presel=None):
+    """text of the export after the selection history -> ('ok', (text, text2)) | ('err', what)"""
+    try:
+        o = outcome(_parse_env, dip_source(specs))
+        if o[0] != "ok":
+            return ("err", "env:%s" % o[1])
+        plan = [(key, _mode(backend, opt, s)) for s, key in select_model(specs, sel)]
+        o = outcome(export_text, backend, opt, o[1], sel, plan, timeout=60, presel=presel)
+        if o[0] != "ok":
+            return ("err", "export:%s: %s" % (o[1], o[2]))
+        return ("ok", tuple(o[1]))
+    finally:
+        isolation.tables_restore()
+
+
+def _selhist_case(backend, opt, specs, last, earlier, between, target=None):
+    c = _case(backend, opt, specs, _sel_form(last), target)
+    c["select_history"] = dict(earlier=list(earlier), parse_between=bool(between), last=last)
+    return c
+
+
+def _selhist_tags(backend, opt, last, earlier, between):
+    forms = [_sel_form(n) for n in earlier]
+    lf = _sel_form(last)
+    # (the earlier forms themselves are in the case; as tags they would make every history a class of its own)
+    t = ["backend=" + backend, "opt=" + opt["id"], "select", "select-history", "last-select=" + last]
+    if between:
+        t.append("parse-between-selects")
+    if "query" not in lf and any("query" in f for f in forms):
+        t.append("last-omits-query-given-earlier")
+    if "tags" not in lf and any("tags" in f for f in forms):
+        t.append("last-omits-tags-given-earlier")
+    return t
+
+
+def _selhist_verdict(backend, opt, specs, last, presel):
+    """read the export after the history back -> list of (target name | None, behaviour, expected, observed)"""
+    sel = _sel_form(last)
+    r = run_batch(backend, opt, specs, sel, presel=presel)
+    nprog = r[2]["programs"] if r[0] == "ok" else (r[3] if len(r) > 3 else 0)
+    out = []
+    if r[0] == "ok":
+        for s, _ in select_model(specs, sel):
+            res = r[1].get(s["id"])
+            if res is not None:
+                out.append((s["name"], res[0], res[1], res[2]))
+        if r[2]["extra"]:
+            out.append((None, "extra-symbol", "only the parameters selected by the last select()", r[2]["extra"][:10]))
+        return out, nprog, (r[2]["compared"] if r[0] == "ok" else 0)
+    stage, msg = r[1], r[2]
+    beh = _STAGE[stage] + (":" + msg.split(":")[0] if stage == "export" else "")
+    want = ("only the parameters selected by the last select() are defined" if stage == "absent" else
+            "the parameters selected by the last select() can be read back by the format's reader")
+    out.append((None, "extra-symbol" if stage == "absent" else beh, want, msg))
+    return out, nprog, 0
+
+
+def check_selhist(backend, opt, specs, last, earlier, between, sh, fresh=None, fresh_verdict=None, cache=None):
+    """one history of select() calls on one exporter object; returns the failures (also recorded in sh)"""
+    sel = _sel_form(last)
+    presel = ([_sel_form(n) for n in earlier], bool(between))
+    n = len(select_model(specs, sel))
+    if fresh is None:
+        fresh = _sel_texts(backend, opt, specs, sel)
+    seq = _sel_texts(backend, opt, specs, sel, presel)
+    sh.evaluations += max(n, 1)
+    if seq == fresh:
+        if seq[0] == "ok":
+            sh.nontrivial += max(n, 1)
+            sh.count("selhist:%s:same-text-as-new-exporter" % backend, max(n, 1))
+        else:
+            sh.count("selhist:%s:same-failure-as-new-exporter" % backend)
+        return []
+    sh.nontrivial += max(n, 1)
+    sh.count("selhist:%s:text-differs-from-new-exporter" % backend)
+    if fresh_verdict is None:
+        fresh_verdict, np_, nc_ = _selhist_verdict(backend, opt, specs, last, None)
+        sh.add_extra("programs", np_)
+    key = seq if seq[0] == "ok" else None
+    if cache is not None and key is not None and key in cache:
+        # the same text was read back (and, when it disagrees, reported) for an earlier history of this shard
+        sh.count("selhist:%s:text-read-back-for-earlier-history:%s" % (backend, "disagrees" if cache[key] else "agrees"))
+        return []
+    else:
+        verdict, np_, nc_ = _selhist_verdict(backend, opt, specs, last, presel)
+        sh.add_extra("programs", np_)
+        sh.add_extra("disagreements_checked", nc_)
+        if cache is not None and key is not None:
+            cache[key] = verdict
+    known = set((t, b) for t, b, _, _ in fresh_verdict)
+    fails = []
+    for target, beh, want, got in verdict:
+        if (target, beh) in known:
+            sh.count("selhist:%s:disagrees-like-new-exporter" % backend)
+            continue
+        sub = "select-history" if target is not None else "select-history-symbols"
+        rec = failure(sub, _selhist_case(backend, opt, specs, last, earlier, between, target), want, got,
+                      tags=_selhist_tags(backend, opt, last, earlier, between),
+                      behaviour="after-earlier-select:" + beh)
+        sh.count("selhist:%s:%s" % (backend, beh))
+        sh.fail(rec)
+        fails.append(rec)
+    if not fails:
+        sh.count("selhist:%s:agree" % backend)
+    return fails
+
+
+def run_selhist(backend, last, tier, sh):
+    opt = optsets(backend)[0]
+    specs = [s for s in select_env() if not skip_reason(backend, opt, s)]
+    sel = _sel_form(last)
+    n = len(select_model(specs, sel))
+    sh.count("selhist:last-selects-%s" % ("nothing" if n == 0 else "some" if n < len(specs) else "all"))
+    fresh = _sel_texts(backend, opt, specs, sel)
+    # the export of a NEW exporter with the single call select(last): read back here (failures of it belong to the
+    # selection phase / batch phase and are reported there, not here)
+    fresh_verdict, np_, nc_ = _selhist_verdict(backend, opt, specs, last, None)
+    sh.add_extra("programs", np_)
+    sh.add_extra("disagreements_checked", nc_)
+    sh.count("selhist:%s:new-exporter-%s" % (backend, "agrees" if not fresh_verdict else "disagrees"))
+    cache = {}
+    for earlier, between in sel_histories(tier):
+        sh.count("selhist:histories")
+        sh.count("selhist:earlier-selects=%d" % len(earlier))
+        check_selhist(backend, opt, specs, last, earlier, between, sh, fresh, fresh_verdict, cache)
+
+
 # ---------------------------------------------------------------------------------------------- harness API
 def _prime_inspect_cache():
     """Speed only, no effect on results: DIP() calls inspect.stack(); frames whose file maps to no module (the
@@ -1375,6 +1559,9 @@ def plan(tier, seed):
         for fam in fams:
             for w in windows:
                 shards.append(("after", backend, fam, w, tier, w == windows[0]))
+    for backend in order:
+        for name, _ in SEL_FORMS:
+            shards.append(("selhist", backend, name, tier))
     return shards
 
 
@@ -1404,6 +1591,9 @@ def run_shard(desc):
     elif kind == "after":
         _, backend, fam, w, tier, flat_too = desc
         run_after(backend, fam, w, tier, flat_too, sh)
+    elif kind == "selhist":
+        _, backend, last, tier = desc
+        run_selhist(backend, last, tier, sh)
     else:
         raise HarnessError("unknown shard %r" % (desc,))
     return sh
@@ -1436,7 +1626,10 @@ def replay(rec):
                 return failure("pair", c, rec["expected"], pb or "agrees", tags=rec["tags"],
                                behaviour="differs-next-to-other-parameter")
         return None
-    if rec["sub"].startswith("after-export"):
+    if rec["sub"].startswith("select-history"):
+        h = c["select_history"]
+        check_selhist(backend, opt, specs, h["last"], h["earlier"], h["parse_between"], sh)
+    elif rec["sub"].startswith("after-export"):
         check_after(c["before"], backend, opt, specs, sh)
     else:
         check_batch(backend, opt, specs, sh, sel)
@@ -1470,6 +1663,18 @@ def finish(total, tier, seed):
             raise HarnessError("vacuous: no history in which an earlier %s export succeeded" % b)
         if not h.get("after:%s:same-text-as-fresh-export" % b) and not h.get("after:%s:agree" % b):
             raise HarnessError("vacuous: no %s export after an earlier export could be compared" % b)
+    nsh = len(sel_histories(tier))
+    if int(h.get("selhist:histories", 0)) != nsh * len(SEL_FORMS) * len(BACKENDS):
+        raise HarnessError("selection histories: %s executed, %d planned" %
+                           (h.get("selhist:histories"), nsh * len(SEL_FORMS) * len(BACKENDS)))
+    for k in ("selhist:last-selects-some", "selhist:last-selects-all"):
+        if not h.get(k):
+            raise HarnessError("vacuous: selection histories lack outcome %s" % k)
+    for b in BACKENDS:
+        if not h.get("selhist:%s:new-exporter-agrees" % b):
+            raise HarnessError("vacuous: no single selection of a new %s exporter could be read back" % b)
+        if not h.get("selhist:%s:same-text-as-new-exporter" % b) and not h.get("selhist:%s:agree" % b):
+            raise HarnessError("vacuous: no %s export after a selection history could be compared" % b)
     base = base_params()
     return dict(programs=progs, disagreements_checked=int(total.extra.get("disagreements_checked", 0)),
                 parameters_in_space=len(base), families=len(families()), backends=BACKENDS,
@@ -1486,6 +1691,16 @@ def finish(total, tier, seed):
                                                              if k.endswith(":same-text-as-fresh-export")),
                     batches_read_back_because_text_differs=sum(v for k, v in h.items()
                                                                if k.endswith(":text-differs-from-fresh-export"))),
+                selection_histories=dict(
+                    forms={n: f for n, f in SEL_FORMS}, last_select="every form", earlier_selects="every sequence of "
+                    "1..%d forms on the same exporter object" % max(len(e) for e, _ in sel_histories(tier)),
+                    parse_between_selects=[False, True], histories_per_export=nsh,
+                    executed=int(h.get("selhist:histories", 0)), back_ends=len(BACKENDS),
+                    expectation="documented selection of the LAST select() call alone",
+                    parameters_same_text_as_new_exporter=sum(
+                        v for k, v in h.items() if k.startswith("selhist:") and k.endswith(":same-text-as-new-exporter")),
+                    histories_read_back_because_text_differs=sum(
+                        v for k, v in h.items() if k.startswith("selhist:") and k.endswith(":text-differs-from-new-exporter"))),
                 bounds=dict(dtypes=DTYPES, shapes=["scalar", [3], [2, 3], [2, 2, 2]], unit=[None, UNIT],
                             name_kinds=["p", "grp.p", "box.cellSize.p"]),
                 caps_hit=[])
@@ -1506,12 +1721,20 @@ MANIFEST = dict(
          "Histories of exports of ONE environment object: every back-end x option set is exported after every single "
          "earlier export (22 x 22 ordered option-set pairs incl. the same exporter twice; thorough: also after every "
          "ordered pair of earlier back-ends, 81 x 22) for every parameter family and compared with the environment as "
-         "it was parsed (an exporter that rewrites the environment's type/value objects is seen by the next export).",
+         "it was parsed (an exporter that rewrites the environment's type/value objects is seen by the next export). "
+         "Histories of selections on ONE live exporter object: every sequence of 1..2 (thorough 1..3) earlier select() "
+         "calls out of 8 forms (no argument, query '*', 'box.*', 'grp.*', a single path, tags ['sel'], tags ['other'], "
+         "query+tags), with and without a parse() after each earlier select, followed by every last form, for every "
+         "back-end (144 histories x 8 last forms x 9 back-ends in quick); the export must contain exactly the "
+         "documented selection of the LAST call (an exporter that remembers or merges query/tags of earlier calls, or "
+         "keeps data of an earlier parse(), is seen).",
     note="Trusted: the compilers/loaders as reference semantics, printer programs that dispatch on the declared type "
          "in the target language, float32 compared after rounding (1 ulp). Not demanded: Fortran signedness, Rust "
          "f128, none where the documentation is silent, line length, warnings. Quick explores one name-kind window "
          "(seed mod 3), thorough all three plus reversed batch order. Histories: an export whose text is identical to "
          "the fresh export's text is decided by the batch-phase read-back of that text; earlier exports use no "
-         "select(); longer histories than one (thorough: two) earlier exports are not explored.",
+         "select(); longer histories than one (thorough: two) earlier exports are not explored. Selection histories "
+         "use the first option set of each back-end and the 20-parameter selection environment; longer than two "
+         "(thorough: three) earlier select() calls are not explored.",
     technique="bounded exhaustive enumeration + compile-and-run read-back with delta debugging",
 )
